@@ -164,6 +164,62 @@ def cursor_correspondence(res, tier):
             res.diverge("seekcursor", d.lines[i], out[i], impl, ["C02"])
 
 
+def write_correspondence(res, tier):
+    """the clusters of a file on the device before and after one real write() through a handle, vs
+    Model.FatIO.writeClusters on the clusters before (new clusters: whatever garbage they held)"""
+    from harness.common import Driver, hexs
+    from harness.fsrun import World, data_for
+    d = Driver()
+    pend = []
+    cfgs = [{"fmt": "spec", "geom": dict(totsec=600, spc=1, rootent=64, nfats=2), "fill_free": True},
+            {"fmt": "spec", "geom": dict(totsec=2000, spc=4, rootent=64, nfats=2), "fill_free": True}]
+    if tier != "quick":
+        cfgs.append({"fmt": "spec", "geom": dict(totsec=9000, spc=2, rootent=64, nfats=1, bps=1024), "fill_free": True})
+    tag = 0
+    for ci, cfg in enumerate(cfgs):
+        bpc = specfat.Geom(**cfg["geom"]).bpc
+        sizes = (0, 1, bpc - 1, bpc, bpc + 1, 2 * bpc, 3 * bpc + 5)
+        ns = (1, bpc - 1, bpc, bpc + 1, 2 * bpc + 3)
+        for size in sizes:
+            for pos in sorted({0, 1, bpc - 1, bpc, bpc + 1, size - 1, size, size // 2}):
+                if pos < 0 or pos > size:
+                    continue
+                for n in (ns if tier != "quick" else ns[::2]):
+                    tag += 1
+                    w = World(dict(cfg, seed=ci))
+                    try:
+                        pf = w.fs.fs
+                        w.fs.writebytes("/PAD.BIN", bytes([7]) * (bpc + 1))      # something before the file
+                        w.fs.writebytes("/F.BIN", data_for("wc%d" % tag, size))
+                        w.fs.remove("/PAD.BIN")                                  # a hole: the extension is not contiguous
+                        h = w.fs.openbin("/F.BIN", "r+")
+                        h.seek(pos)
+                        before = w.dev.snapshot()
+                        data = data_for("w%d" % tag, n)
+                        h.write(data)
+                        after = w.dev.snapshot()
+                        ent = pf.root_dir.get_entry("/F.BIN")
+                        chain = list(pf.get_cluster_chain(ent.get_cluster()))
+                        h.close()
+
+                        def clus(img, c):
+                            o = w.off + pf.get_data_cluster_address(c)
+                            return img[o:o + bpc]
+                        cb = [clus(before, c) for c in chain]
+                        ca = [clus(after, c) for c in chain]
+                        impl = "ok " + ",".join(hexs(x) for x in ca)
+                        pend.append((d.ask("vol writeclusters %d %d %d %s %s" % (bpc, size, pos, hexs(data), ",".join(hexs(x) for x in cb))),
+                                     impl, "wc:%d:%s:%s" % (bpc, "eof" if pos == size else "in", "grow" if pos + n > size else "inplace")))
+                    finally:
+                        w.abandon()
+    out = d.run()
+    for i, impl, tg in pend:
+        res.case(tg)
+        res.count("cmp:writeclusters")
+        if out[i] != impl:
+            res.diverge("writeclusters", d.lines[i][:200], out[i][:200], impl[:200], ["C02"])
+
+
 def grown_elsewhere(res, tier, cfgs, seen):
     """a handle parked at a position (end of file on a cluster boundary included) while the file grows through
     another, path-based call; then the parked handle writes without seeking: its cached cluster cursor is stale.
@@ -196,6 +252,7 @@ def grown_elsewhere(res, tier, cfgs, seen):
 def run(tier):
     res = Result("io")
     cursor_correspondence(res, tier)
+    write_correspondence(res, tier)
     r = rng("io")
     nprog = 80 if tier == "quick" else 1200
     cfgs = configs(tier)
